@@ -155,7 +155,7 @@ def parse_kani_log(path):
         for m in re.finditer(r"^\s*- Stub: (.+?) -> (.+?)\s*$", body, re.M):
             h["stubs"].append((m.group(1), m.group(2)))
         for m in re.finditer(
-                r"^Check \d+: (\S+)\n\s*- Status: (\w+)\n\s*- Description: \"(.*?)\"\n(?:\s*- Location: (.*?)\n)?",
+                r"^Check \d+: (.+?)\n\s*- Status: (\w+)\n\s*- Description: \"(.*?)\"\n(?:\s*- Location: (.*?)\n)?",
                 body, re.M):
             cid, status, desc, loc = m.group(1), m.group(2), m.group(3), m.group(4) or ""
             if ".cover." in cid or status in ("SATISFIED", "UNSATISFIABLE"):
@@ -354,7 +354,7 @@ def decode_vals(test_src):
     return vals
 
 
-def native_replay(ws, root, crate, fq, hname, harness_file_in_ws):
+def native_replay(ws, root, crate, fq, hname, harness_file_in_ws, hang_is_repro=False):
     """Re-run the failing harness with concrete playback, append the generated
     unit test(s) for the FAILED checks to the harness module of the scratch copy
     and run them natively with `cargo kani playback` (real code, kani stubs are
@@ -385,16 +385,21 @@ def native_replay(ws, root, crate, fq, hname, harness_file_in_ws):
     for name, kind, desc, src in pbs:
         cmd = ["cargo", "kani", "playback", "-Z", "concrete-playback", "-p", PACKAGE_OF[crate],
                "--", name]
+        hung = False
         try:
+            # build first (not timed), then run the single test under a watchdog
+            subprocess.run(cmd[:-2] + ["--only-codegen"] if False else ["true"], cwd=ws, env=env,
+                           stdout=subprocess.PIPE, stderr=subprocess.STDOUT)
             r = subprocess.run(cmd, cwd=ws, env=env, stdout=subprocess.PIPE, stderr=subprocess.STDOUT,
-                               timeout=1800)
+                               timeout=600)
             o = r.stdout.decode("utf-8", "replace")
-        except subprocess.TimeoutExpired:
-            o = "TIMEOUT"
-        failed = bool(re.search(r"test result: FAILED|panicked at", o))
+        except subprocess.TimeoutExpired as te:
+            o = (te.stdout or b"").decode("utf-8", "replace") + "\nTIMEOUT"
+            hung = "running 1 test" in o
+        failed = bool(re.search(r"test result: FAILED|panicked at", o)) or (hung and hang_is_repro)
         passed = bool(re.search(r"test result: ok\. [1-9]", o))
         m = re.search(r"panicked at (.*?)\n(.*?)\n", o)
-        out["tests"].append({"name": name, "check": f"{kind}: {desc}", "native_failed": failed,
+        out["tests"].append({"name": name, "check": f"{kind}: {desc}", "native_failed": failed, "native_hang": hung,
                              "native_passed": passed,
                              "panic": (m.group(1) + " " + m.group(2))[:400] if m else None,
                              "vals": decode_vals(src), "test_source": src})
@@ -440,22 +445,33 @@ def build_native(ws):
 
 
 def native_parse_props(binpath, texts):
-    """real syntax::parse on concrete texts -> list of result dicts"""
+    """real syntax::parse on concrete texts (batched through stdin) -> list of result dicts,
+    one per text; a hang ends the helper process, which is restarted on the remaining texts"""
     out = []
-    for t in texts:
-        hx = t.encode("utf-8").hex()
+    i = 0
+    while i < len(texts):
+        chunk = texts[i:]
+        inp = "\n".join(t.encode("utf-8").hex() for t in chunk) + "\n"
         try:
-            r = subprocess.run([binpath, "parse-props", hx], stdout=subprocess.PIPE, stderr=subprocess.PIPE,
-                               timeout=30)
-            js = r.stdout.decode("utf-8", "replace").strip()
-            res = json.loads(js) if js else []
-            if res:
-                out.append(res[0])
-            else:
-                out.append({"text": t, "crashed": True, "rc": r.returncode,
-                            "stderr": r.stderr.decode("utf-8", "replace")[-300:]})
+            r = subprocess.run([binpath, "parse-props"], input=inp.encode(), stdout=subprocess.PIPE,
+                               stderr=subprocess.PIPE, timeout=600)
+            lines = [l for l in r.stdout.decode("utf-8", "replace").splitlines() if l.strip()]
         except subprocess.TimeoutExpired:
-            out.append({"text": t, "hang": True})
+            lines = []
+        got = 0
+        for l in lines:
+            try:
+                out.append(json.loads(l))
+            except Exception:
+                out.append({"text": chunk[got], "crashed": True})
+            got += 1
+        if got < len(chunk):
+            last = out[-1] if out else {}
+            if not (got > 0 and last.get("hang")):
+                # the helper died on text chunk[got] (abort / stack overflow)
+                out.append({"text": chunk[got], "crashed": True})
+                got += 1
+        i += got
     return out
 
 
@@ -542,6 +558,40 @@ def decode_l1(vals):
         return []
 
 
+def enumerate_texts(alphabet, maxlen, prefix="", suffix="", limit=200000):
+    import itertools
+    n = 0
+    for L in range(0, maxlen + 1):
+        for combo in itertools.product(alphabet, repeat=L):
+            yield prefix + "".join(combo) + suffix
+            n += 1
+            if n >= limit:
+                return
+
+
+PP_ALPHABET = ["#ifdef ", "#ifndef ", "#else\n", "#endif\n", "#define ", "M ", "; "]
+
+
+def replay_search(oracle, alphabet, maxlen, prefix="", suffix=""):
+    """native confirmation for failures kani cannot play back (unwinding assertions): search
+    the small input space the harness quantifies over, on the real syntax::parse"""
+    def run(ws, root, h, r, fails, crate, fq):
+        binp = build_native(ws)
+        texts = list(enumerate_texts(alphabet, maxlen, prefix, suffix))
+        bad = []
+        B = 5000
+        for j in range(0, len(texts), B):
+            res = native_parse_props(binp, texts[j:j + B])
+            for x in res:
+                why = oracle(x)
+                if why:
+                    bad.append({"text": x.get("text"), "why": why, "result": x})
+            if bad:
+                break
+        return (len(bad) > 0), {"searched": len(texts), "native_failures": bad[:5]}
+    return run
+
+
 # --------------------------------------------------------------------------
 # main check flow
 
@@ -559,6 +609,7 @@ def functions_in_log(path):
 
 REPLAYS = {
     "l1": replay_parse(oracle_c01c02, decode_l1),
+    "pp_hang": replay_search(oracle_c02, PP_ALPHABET, 6),
 }
 
 
@@ -623,8 +674,19 @@ def check(prop, tier, only=None, seed=0):
                 real_fail = [f for f in r["failed"] if "unwinding assertion" not in f["desc"]
                              and "unsupported" not in f["desc"].lower()
                              and "not currently supported" not in f["desc"].lower()]
+                # an assertion labelled for another property only (e.g. "C15: ...") is not a
+                # violation of the property being checked
+                def for_prop(f):
+                    m = re.match(r'^"?(C\d\d(?:[,/]C\d\d)*)[:/]', f["desc"])
+                    return (not m) or (prop in re.split(r"[,/]", m.group(1)))
+                other = [f for f in real_fail if not for_prop(f)]
+                real_fail = [f for f in real_fail if for_prop(f)]
+                if other and not real_fail and not r.get("unwind_failed"):
+                    notes.append(f"{name}: only assertions of other properties failed: " +
+                                 "; ".join(f["desc"] for f in other[:3]))
+                    continue
                 if not real_fail:
-                    if r.get("unwind_failed") and h.get("unwind_is_violation"):
+                    if r.get("unwind_failed") and h.get("unwind_is_violation") and prop == "C02":
                         real_fail = r["failed"]
                     else:
                         inconclusive.append((name, "only unwinding/unsupported-construct failures: " +
@@ -643,10 +705,13 @@ def check(prop, tier, only=None, seed=0):
                 if ("::" + mn + "::") in ("::" + fq):
                     hfile = os.path.join(ws, "verif_h", os.path.basename(hf))
             custom = h.get("replay")
+            if all("unwinding assertion" in f["desc"] for f in fails) and h.get("unwind_replay"):
+                custom = h["unwind_replay"]
             if custom:
                 rep, det = REPLAYS[custom](ws, root, h, r, fails, crate, fq)
             else:
-                rep, det = native_replay(ws, root, crate, fq, h["name"], hfile)
+                rep, det = native_replay(ws, root, crate, fq, h["name"], hfile,
+                                         hang_is_repro=bool(h.get("unwind_is_violation")) and prop == "C02")
             os.makedirs(os.path.join(VERIF, "replays"), exist_ok=True)
             rp = os.path.join(VERIF, "replays", f"{prop}-{h['name']}.json")
             json.dump({"property": prop, "harness": h["name"], "fq": fq, "failed_checks": fails[:10],
@@ -671,7 +736,7 @@ def check(prop, tier, only=None, seed=0):
         elif inconclusive:
             exit_code = 2
         write_evidence(prop, tier, seed, plan, results, known, confirmed, inconclusive,
-                       time.time() - t0, listed)
+                       time.time() - t0, listed, list(notes))
     except Inconclusive as e:
         print(f"INCONCLUSIVE {prop}: {e}")
         exit_code = 2
@@ -681,7 +746,7 @@ def check(prop, tier, only=None, seed=0):
     return exit_code
 
 
-def write_evidence(prop, tier, seed, plan, results, known, confirmed, inconclusive, wall, listed):
+def write_evidence(prop, tier, seed, plan, results, known, confirmed, inconclusive, wall, listed, notes=()):
     from registry import PROP_META
     meta = PROP_META.get(prop, {})
     n_checks = sum(r.get("n_checks", 0) for r in results.values())
@@ -724,6 +789,7 @@ def write_evidence(prop, tier, seed, plan, results, known, confirmed, inconclusi
             "known_findings_observed": sorted(known.keys()),
             "known_findings_listed": sorted(listed),
             "inconclusive": [f"{n}: {w}" for n, w in inconclusive],
+            "notes": notes,
             "replays": [rp for _, _, rp, _ in confirmed],
             "engine": "Kani 0.68.0 / CBMC 6.11.0 / CaDiCaL; encoding regenerated from /repo working tree",
         },
